@@ -50,9 +50,9 @@ P = {
  "C15": ("model_checking", "E2 explicit-state BFS over operation histories, replayed on fresh real tries against a set model", "§3 C15",
    "Every reachable trie state over {a,b}^<=3 / {a,b,c}^<=2 (thorough {a,b}^<=4) x every Add/Delete is executed on the real trie (fresh instance + replayed shortest history), compared step by step with the set model on Delete's result, Has over all probes, ForEach multiset, argument aliasing, and JSON rebuild differential.",
    "state key = MarshalJSON bytes (the whole state: nested maps)"),
- "C16": ("exploration", "E3 enumeration of all interval lists x all positions + E2 operation histories; separate -race pass", "§3 C16",
-   "All ordered lists of <=3/4 intervals over coordinates {-1,0,1,2} incl. empty and inverted ones x every query position vs a brute-force scan; extreme coordinates; read-only-ness as operation histories (mutate results/inputs, re-query); mismatched lengths panic; thorough adds a free-running -race pass.",
-   "concurrency decided by absence of shared mutable state + race detector, not by schedule enumeration"),
+ "C16": ("exploration", "E3 enumeration of all interval lists x all positions + E2 operation histories + E4 preemption-bounded schedule exploration of concurrent At calls on the source-instrumented package; separate -race pass", "§3 C16, §8.8",
+   "All ordered lists of <=3/4 intervals over coordinates {-1,0,1,2} incl. empty and inverted ones x every query position vs a brute-force scan; extreme coordinates; read-only-ness as operation histories (mutate results/inputs, re-query); mismatched lengths panic; concurrent At: every schedule with <=2/3 preemptions of 2-3 goroutines on every index of <=2/3 intervals, each execution judged against the brute-force scan (package regions instrumented at build time: a scheduling point before every statement, sync primitives as scheduler-visible shims); plus a free-running -race pass for unsynchronised accesses.",
+   "schedules: preemption bound 2 (quick) / 3 (thorough), statement granularity, sequentially consistent memory; data races are left to the separate -race pass"),
  "C17": ("model_checking", "E2 BFS over Add histories on real sketches + E3 enumeration of variants, vs bottom-n reference", "§3 C17",
    "All sequence sets up to the bound x k x n: View() equals the bottom-n distinct canonical k-mer hashes; invariant under strand/case/order/partition variants (each enumerated completely); explicit-state search over Add histories; Distance laws on all pairs of full sketches; FromJaccard monotone on a complete grid.",
    "murmur3 trusted as the hash primitive; only full sketches for Distance"),
@@ -96,13 +96,13 @@ def main():
         "setup_cmd": "./setup.sh",
         "hooks": {
             "guard": "verif",
-            "enable": "go build -tags verif (run.sh passes the tag on every build; no hook is currently needed: every property is observable through the exported API)",
+            "enable": "go build -tags verif (run.sh passes the tag on every build; no hook is committed in /repo: every property is observable through the exported API). The scheduling points of the C16 schedule exploration are generated at check time from /repo's current source and handed to go build -overlay together with -tags verif,verifsched (mc/engine/instr, DESIGN.md 8.8); nothing in /repo is edited and a build without the overlay never sees them",
             "baseline_off_cmd": "cd /repo && GOFLAGS=-mod=mod GOPROXY=off GOSUMDB=off GOTOOLCHAIN=local go test -vet=off -count=1 ./...",
             "source_commits": hooks_commits,
             "add_only": True,
         },
         "engines": [{"name": "mc", "path": "/verif/mc", "serves_properties": [c["property_id"] for c in checks],
-                     "kind_free_text": "hand-written bounded exhaustive explorer in Go running the real packages from /repo: E1 choice-point (environment answer) DFS, E2 explicit-state BFS over operation histories, E3 small-scope enumerators"}],
+                     "kind_free_text": "hand-written bounded exhaustive explorer in Go running the real packages from /repo: E1 choice-point (environment answer) DFS, E2 explicit-state BFS over operation histories, E3 small-scope enumerators, E4 preemption-bounded schedule explorer (cooperative scheduler over a source-instrumented copy of the package, sync shims)"}],
         "checks": checks,
         "notes": notes,
         "not_applicable": na,
